@@ -64,6 +64,12 @@ FINGERPRINTS = [
     ("ariadne_codegen/client_generators/result_fields.py", "parse_enum_type"),
     ("ariadne_codegen/client_generators/client.py", "ClientGenerator.generate"),
     ("ariadne_codegen/client_generators/custom_arguments.py", "ArgumentGenerator._parse_graphql_type_name"),
+    ("ariadne_codegen/client_generators/arguments.py", "ArgumentsGenerator.generate"),
+    ("ariadne_codegen/client_generators/result_types.py", "ResultTypesGenerator.__init__"),
+    ("ariadne_codegen/client_generators/result_types.py", "ResultTypesGenerator._resolve_selection_set"),
+    ("ariadne_codegen/client_generators/result_types.py", "ResultTypesGenerator._unpack_fragment"),
+    ("ariadne_codegen/client_generators/result_types.py", "ResultTypesGenerator.get_unpacked_fragments"),
+    ("ariadne_codegen/main.py", "client"),
 ]
 
 # --------------------------------------------------------------------------------------------
@@ -190,10 +196,39 @@ def gen_schema(rng: random.Random) -> Dict[str, Any]:
     roots = {"Query": root_fields(rng.randint(1, 4))}
     if rng.random() < 0.4:
         roots["Mutation"] = root_fields(rng.randint(1, 2))
-    order = [("enum", n) for n in enums] + [("input", n) for n in input_names] + [("object", n) for n in obj_names] + [("root", n) for n in roots]
+
+    # ---- abstract types: interfaces implemented by some object types, unions of object types; fields of those types.
+    # Field names of an interface are its own (`i0g1`), so that nothing an implementing type declares clashes with them.
+    interfaces: Dict[str, Dict[str, Any]] = {}
+    unions: Dict[str, List[str]] = {}
+    for i in range(rng.choice([0, 0, 1, 1, 2])):
+        ifields = []
+        for k in range(rng.randint(1, 2)):
+            t = leaf_type()
+            ifields.append({"name": f"i{i}g{k}", "type": rng.choice(WRAPS).format(t), "named": t,
+                            "kind": "enum" if t in enums else "scalar", "args": []})
+        members = sorted(rng.sample(obj_names, rng.randint(1, len(obj_names))))
+        interfaces[f"If{i}"] = {"fields": ifields, "members": members}
+        for m in members:
+            objects[m] += [dict(f) for f in ifields]
+    for i in range(rng.choice([0, 0, 1, 1, 2])):
+        unions[f"Un{i}"] = sorted(rng.sample(obj_names, rng.randint(1, min(3, len(obj_names)))))
+    abstract_names = list(interfaces) + list(unions)
+    if abstract_names:
+        for name in obj_names:
+            if rng.random() < 0.3:
+                t = rng.choice(abstract_names)
+                objects[name].append({"name": f"fa{len(objects[name])}", "type": rng.choice(["{}", "[{}]", "[{}!]", "{}"]).format(t),
+                                      "named": t, "kind": "abstract", "args": arg_list(1)})
+        for k in range(rng.randint(1, 2)):
+            t = rng.choice(abstract_names)
+            roots["Query"].append({"name": f"ra{k}", "type": rng.choice(["{}", "[{}]", "{}!", "[{}!]!"]).format(t), "named": t,
+                                   "kind": "abstract", "args": arg_list(2)})
+    order = ([("enum", n) for n in enums] + [("input", n) for n in input_names] + [("object", n) for n in obj_names]
+             + [("root", n) for n in roots] + [("interface", n) for n in interfaces] + [("union", n) for n in unions])
     rng.shuffle(order)
     return {"enums": enums, "inputs": inputs, "objects": objects, "roots": roots, "order": order,
-            "custom_scalar": use_custom_scalar, "shape": shape}
+            "interfaces": interfaces, "unions": unions, "custom_scalar": use_custom_scalar, "shape": shape}
 
 
 def schema_sdl(s: Dict[str, Any]) -> str:
@@ -210,10 +245,16 @@ def schema_sdl(s: Dict[str, Any]) -> str:
         elif kind == "input":
             fs = [f"{f['name']}: {f['type']}" + (f" = {f['default']}" if f["default"] is not None else "") for f in s["inputs"][name]]
             out.append(f"input {name} {{ " + "  ".join(fs) + " }")
+        elif kind == "union":
+            out.append(f"union {name} = " + " | ".join(s["unions"][name]))
+        elif kind == "interface":
+            fs = [f"{f['name']}: {f['type']}" for f in s["interfaces"][name]["fields"]]
+            out.append(f"interface {name} {{ " + "  ".join(fs) + " }")
         else:
             fields = s["objects"][name] if kind == "object" else s["roots"][name]
             fs = [f"{f['name']}{args_txt(f['args'])}: {f['type']}" for f in fields]
-            out.append(f"type {name} {{ " + "  ".join(fs) + " }")
+            impl = [i for i, d in s.get("interfaces", {}).items() if name in d["members"]] if kind == "object" else []
+            out.append(f"type {name}" + (" implements " + " & ".join(impl) if impl else "") + " { " + "  ".join(fs) + " }")
     return "\n".join(out) + "\n"
 
 
@@ -231,7 +272,7 @@ def gen_queries(rng: random.Random, s: Dict[str, Any]) -> str:
 
     def select(type_name: str, depth: int, variables: Optional[List[str]], allow_frag: bool = True) -> str:
         fields = s["objects"][type_name]
-        cands = [f for f in fields if depth < 3 or f["kind"] != "object"]
+        cands = [f for f in fields if depth < 3 or f["kind"] not in ("object", "abstract")]
         if variables is None:  # inside a fragment: argument-less fields only (no conflicts with siblings of the spread)
             cands = [f for f in cands if not f["args"]]
         chosen = rng.sample(cands, rng.randint(1, min(3, len(cands))))
@@ -239,6 +280,56 @@ def gen_queries(rng: random.Random, s: Dict[str, Any]) -> str:
         if allow_frag and rng.random() < 0.35:
             parts.append("..." + fragment_on(type_name, depth))
         return "{ " + " ".join(parts) + " }"
+
+    interfaces: Dict[str, Dict[str, Any]] = s.get("interfaces", {})
+    unions: Dict[str, List[str]] = s.get("unions", {})
+    abstract_frags: Dict[str, List[str]] = {}   # fragments WITHOUT a class of their own (on a union / with an inline fragment)
+    iface_mixins: Dict[str, List[str]] = {}     # fragments on an interface selecting interface fields only (inherited)
+
+    def inline_on(member: str, tag: str, variables: Optional[List[str]]) -> str:
+        """`... on Member { aliased leaf fields }` - aliases keep sibling inline fragments from conflicting"""
+        leafs = [f for f in s["objects"][member] if f["kind"] in ("enum", "scalar") and (variables is not None or not f["args"])]
+        chosen = rng.sample(leafs, rng.randint(1, min(2, len(leafs))))
+        return "... on " + member + " { " + " ".join(f"{tag}{f['name']}: " + field_txt(f, 3, variables) for f in chosen) + " }"
+
+    def abstract_body(type_name: str, variables: Optional[List[str]], need_inline: bool) -> str:
+        members = interfaces[type_name]["members"] if type_name in interfaces else unions[type_name]
+        parts = ["__typename"]
+        if type_name in interfaces:
+            own = interfaces[type_name]["fields"]
+            parts += [f["name"] for f in rng.sample(own, rng.randint(0 if need_inline else 1, len(own)))]
+        picked = rng.sample(members, rng.randint(1 if need_inline or type_name in unions else 0, min(2, len(members))))
+        parts += [inline_on(m, m.lower(), variables) for m in picked]  # one alias per (member, field): mergeable wherever it recurs
+        return "{ " + " ".join(parts) + " }"
+
+    def abstract_fragment_on(type_name: str) -> str:
+        existing = abstract_frags.get(type_name, [])
+        if existing and rng.random() < 0.5:
+            return rng.choice(existing)
+        name = f"Fr{len(fragments)}"
+        fragments.append(f"fragment {name} on {type_name} " + abstract_body(type_name, None, need_inline=True))
+        abstract_frags.setdefault(type_name, []).append(name)
+        return name
+
+    def iface_mixin_on(type_name: str) -> str:
+        existing = iface_mixins.get(type_name, [])
+        if existing and rng.random() < 0.5:
+            return rng.choice(existing)
+        name = f"Fr{len(fragments)}"
+        own = interfaces[type_name]["fields"]
+        fragments.append(f"fragment {name} on {type_name} {{ " + " ".join(f["name"] for f in rng.sample(own, rng.randint(1, len(own)))) + " }")
+        iface_mixins.setdefault(type_name, []).append(name)
+        return name
+
+    def select_abstract(type_name: str, variables: Optional[List[str]]) -> str:
+        """Selection set at a position of an interface / union type.  Spreads of class-less fragments occur only at
+        positions of their own type condition, inherited interface fragments only next to no inline fragment."""
+        r = rng.random()
+        if r < 0.4:
+            return "{ " + rng.choice(["", "__typename "]) + "..." + abstract_fragment_on(type_name) + " }"
+        if type_name in interfaces and r < 0.55:
+            return "{ " + rng.choice(["", "__typename "]) + "..." + iface_mixin_on(type_name) + " }"
+        return abstract_body(type_name, variables, need_inline=False)
 
     def field_txt(f: Dict[str, Any], depth: int, variables: Optional[List[str]]) -> str:
         args = []
@@ -253,6 +344,8 @@ def gen_queries(rng: random.Random, s: Dict[str, Any]) -> str:
         txt = f["name"] + ("(" + ", ".join(args) + ")" if args else "")
         if f["kind"] == "object":
             txt += " " + select(f["named"], depth + 1, variables)
+        elif f["kind"] == "abstract":
+            txt += " " + select_abstract(f["named"], variables)
         return txt
 
     def fragment_on(type_name: str, depth: int) -> str:
@@ -282,7 +375,13 @@ def gen_queries(rng: random.Random, s: Dict[str, Any]) -> str:
             head += "(" + ", ".join(variables) + ")"
         ops.append(head + " " + body)
     for _ in range(rng.choice([0, 0, 0, 1, 2]) or (0 if ops or fragments else 1)):  # fragments that no operation spreads
-        fragment_on(rng.choice(list(s["objects"])), 2)
+        target = rng.choice(list(s["objects"]) + list(interfaces) + list(unions))
+        if target in s["objects"]:
+            fragment_on(target, 2)
+        elif target in interfaces and rng.random() < 0.5:
+            iface_mixin_on(target)
+        else:
+            abstract_fragment_on(target)
     return "\n".join(ops + fragments) + "\n"
 
 
@@ -376,11 +475,151 @@ def abstract_document(schema: Any, queries: str) -> Tuple[List[Dict[str, Any]], 
                 ve.append(t.name)
         ops.append({"vi": vi, "ve": ve, "re": _selected_enums(schema, d, fragments)})
     frag: Optional[List[str]] = None
-    if fragments:  # generated cases never unpack a fragment, so the module is written iff one is defined
+    if fragments:
+        # the ORACLE's reading of "enums reachable from fragments": every enum-typed field selected in a fragment
+        # definition that the package represents by a class (following spreads).  A fragment without a class of its
+        # own (is_classless) exists in the package only where an operation spreads it - there its fields are result
+        # fields of that operation, which the TypeInfo walk above reaches through the spread.
         frag = []
         for f in fragments.values():
-            frag += _selected_enums(schema, f, fragments)
+            if not is_classless(schema, f):
+                frag += _selected_enums(schema, f, fragments)
     return ops, frag
+
+
+def classless_fragment_enums(schema: Any, queries: str) -> Set[str]:
+    """enum-typed fields selected (transitively) in fragment definitions that have no class of their own"""
+    from graphql import FragmentDefinitionNode, parse
+
+    doc = parse(queries) if queries.strip() else None
+    fragments = {d.name.value: d for d in (doc.definitions if doc else ()) if isinstance(d, FragmentDefinitionNode)}
+    out: Set[str] = set()
+    for f in fragments.values():
+        if is_classless(schema, f):
+            out |= set(_selected_enums(schema, f, fragments))
+    return out
+
+
+def is_classless(schema: Any, fdef: Any) -> bool:
+    """A fragment definition that never gets a class of its own: its type condition is a union, or one of its
+    top-level selections is an inline fragment (result_types.py: `_unpack_fragment(self.operation_definition)` makes
+    `_class_defs = []`; wherever it is spread its fields are unpacked into the spreading class)."""
+    from graphql import InlineFragmentNode, is_union_type
+
+    if is_union_type(schema.type_map.get(fdef.type_condition.name.value)):
+        return True
+    return any(isinstance(sel, InlineFragmentNode) for sel in fdef.selection_set.selections)
+
+
+def component_spec(schema: Any, fragments: Dict[str, Any], definition: Any) -> Tuple[List[str], List[str]]:
+    """What ONE ResultTypesGenerator built for `definition` (an operation or a fragment) reports:
+    (get_used_enums(), get_unpacked_fragments()).  Specification written against graphql-core's objects (own typed
+    walk); valid where the generators and the corpus stay: a class-less fragment is spread at positions of its own
+    type condition, an inline fragment names a member / implementation of the abstract parent or the parent itself.
+    A spread of a fragment WITH a class stops the walk (the fragment's own generator reports what is below)."""
+    from graphql import FieldNode, FragmentDefinitionNode, FragmentSpreadNode, InlineFragmentNode, get_named_type, is_enum_type
+
+    enums: List[str] = []
+    unpacked: List[str] = []
+
+    def walk(selection_set: Any, parent: Any, path: Tuple[str, ...]) -> None:
+        for sel in selection_set.selections:
+            if isinstance(sel, FieldNode):
+                fdef = (getattr(parent, "fields", None) or {}).get(sel.name.value)
+                if fdef is None:
+                    continue  # __typename
+                t = get_named_type(fdef.type)
+                if is_enum_type(t):
+                    enums.append(t.name)
+                if sel.selection_set:
+                    walk(sel.selection_set, t, path)
+            elif isinstance(sel, InlineFragmentNode):
+                walk(sel.selection_set, schema.type_map[sel.type_condition.name.value] if sel.type_condition else parent, path)
+            elif isinstance(sel, FragmentSpreadNode):
+                f = fragments[sel.name.value]
+                if is_classless(schema, f) and sel.name.value not in path:
+                    if sel.name.value not in unpacked:
+                        unpacked.append(sel.name.value)
+                    walk(f.selection_set, schema.type_map[f.type_condition.name.value], path + (sel.name.value,))
+
+    if isinstance(definition, FragmentDefinitionNode):
+        if is_classless(schema, definition):
+            return [], []
+        root = schema.type_map[definition.type_condition.name.value]
+    else:
+        root = {"query": schema.query_type, "mutation": schema.mutation_type, "subscription": schema.subscription_type}[definition.operation.value]
+    walk(definition.selection_set, root, ())
+    return enums, unpacked
+
+
+def _enc_type_node(node: Any) -> Any:
+    from graphql import ListTypeNode, NonNullTypeNode
+
+    if isinstance(node, ListTypeNode):
+        return ["l", _enc_type_node(node.type)]
+    if isinstance(node, NonNullTypeNode):
+        return ["n", _enc_type_node(node.type)]
+    return node.name.value
+
+
+def _base_of(t: Any) -> str:
+    while not isinstance(t, str):
+        t = t[1]
+    return t
+
+
+def schema_kinds(schema: Any) -> List[List[str]]:
+    from graphql import is_enum_type, is_input_object_type, is_scalar_type
+
+    out = []
+    for name, t in schema.type_map.items():
+        if not name.startswith("__"):
+            out.append([name, "input" if is_input_object_type(t) else "enum" if is_enum_type(t) else "scalar" if is_scalar_type(t) else "other"])
+    return out
+
+
+def abstract_document_doc(schema: Any, queries: str) -> Tuple[List[Dict[str, Any]], List[Dict[str, Any]]]:
+    """The document as Model/PruneDoc.lean reads it: per operation the variable TYPE NODES (wrappers kept; the model
+    classifies the named type itself) and the two component outputs; per fragment definition its component output."""
+    from graphql import FragmentDefinitionNode, OperationDefinitionNode, parse
+
+    doc = parse(queries) if queries.strip() else None
+    defs = list(doc.definitions) if doc else []
+    fragments = {d.name.value: d for d in defs if isinstance(d, FragmentDefinitionNode)}
+    ops = []
+    for d in defs:
+        if isinstance(d, OperationDefinitionNode):
+            re_, unp = component_spec(schema, fragments, d)
+            ops.append({"vars": [_enc_type_node(v.type) for v in d.variable_definitions or ()], "re": re_, "unpacked": unp})
+    frags = [{"name": n, "enums": component_spec(schema, fragments, f)[0]} for n, f in fragments.items()]
+    return ops, frags
+
+
+def doc_input(case: Dict[str, Any], ai: bool, ae: bool, custom: bool = False) -> Dict[str, Any]:
+    schema = build_schema_like_the_generator(case["schema"])
+    ops, frags = abstract_document_doc(schema, case["queries"])
+    line: Dict[str, Any] = {"op": "generateDoc", "kinds": schema_kinds(schema), "inputs": abstract_inputs(schema),
+                            "enums": abstract_enums(schema), "ops": ops, "frags": frags, "allInputs": ai, "allEnums": ae}
+    if custom:
+        ci, ce = custom_needs(schema)
+        line.update({"customOps": True, "customInputs": ci, "customEnums": ce})
+    return line
+
+
+def twin_to_input(doc: Dict[str, Any]) -> Dict[str, Any]:
+    """Python twin of `Ariadne.PruneDoc.toInput`: the `generate` line of Model/Prune.lean a document amounts to."""
+    kinds: Dict[str, str] = {}
+    for n, k in doc["kinds"]:
+        kinds.setdefault(n, k)
+    ops = []
+    for op in doc["ops"]:
+        bases = [_base_of(t) for t in op["vars"]]
+        ops.append({"vi": [b for b in bases if kinds.get(b) == "input"], "ve": [b for b in bases if kinds.get(b) == "enum"], "re": op["re"]})
+    unpacked = {n for op in doc["ops"] for n in op["unpacked"]}
+    remaining = [f for f in doc["frags"] if f["name"] not in unpacked]
+    line = {k: v for k, v in doc.items() if k not in ("kinds", "ops", "frags")}
+    line.update({"op": "generate", "ops": ops, "frag": [e for f in remaining for e in f["enums"]] if remaining else None})
+    return line
 
 
 def custom_needs(schema: Any) -> Tuple[List[str], List[str]]:
@@ -415,14 +654,7 @@ def custom_needs(schema: Any) -> Tuple[List[str], List[str]]:
 
 
 def model_input(case: Dict[str, Any], ai: bool, ae: bool, custom: bool = False) -> Dict[str, Any]:
-    schema = build_schema_like_the_generator(case["schema"])
-    ops, frag = abstract_document(schema, case["queries"])
-    line: Dict[str, Any] = {"op": "generate", "inputs": abstract_inputs(schema), "enums": abstract_enums(schema), "ops": ops,
-                            "frag": frag, "allInputs": ai, "allEnums": ae}
-    if custom:
-        ci, ce = custom_needs(schema)
-        line.update({"customOps": True, "customInputs": ci, "customEnums": ce})
-    return line
+    return twin_to_input(doc_input(case, ai, ae, custom))
 
 
 # --------------------------------------------------------------------------------------------
@@ -430,7 +662,11 @@ def model_input(case: Dict[str, Any], ai: bool, ae: bool, custom: bool = False) 
 # --------------------------------------------------------------------------------------------
 
 
-def oracle_closure(case: Dict[str, Any], ai: bool, ae: bool) -> Tuple[Set[str], Set[str]]:
+def oracle_closure(case: Dict[str, Any], ai: bool, ae: bool) -> Tuple[Set[str], Set[str], Set[str]]:
+    """(input types to keep, enums to keep, enums that only class-less fragment definitions no operation reaches select).
+    The third set is the one place where the letter of the property ("reachable from fragments") and what any module
+    of the package can need come apart: such a fragment has no class anywhere in the package.  The caller requires
+    those enums only when some module of the generated package mentions them, and never counts them as extra."""
     from graphql import get_named_type, is_enum_type, is_input_object_type
 
     schema = build_schema_like_the_generator(case["schema"])
@@ -460,7 +696,7 @@ def oracle_closure(case: Dict[str, Any], ai: bool, ae: bool) -> Tuple[Set[str], 
                 t = get_named_type(f.type)
                 if is_enum_type(t):
                     kept_enums.add(t.name)
-    return kept_inputs, kept_enums
+    return kept_inputs, kept_enums, (classless_fragment_enums(schema, case["queries"]) & all_enums) - kept_enums
 
 
 # --------------------------------------------------------------------------------------------
@@ -478,6 +714,25 @@ def _imports_from(src: str, module: Optional[str]) -> List[str]:
         if isinstance(n, ast.ImportFrom) and n.level == 1 and n.module == module:
             out += [a.name for a in n.names]
     return sorted(out)
+
+
+def _mentioned_names(files: Dict[str, str]) -> Set[str]:
+    """every identifier the given modules mention: names, imported names, identifiers inside string constants
+    (quoted annotations)"""
+    import re
+
+    out: Set[str] = set()
+    for src in files.values():
+        for n in ast.walk(ast.parse(src)):
+            if isinstance(n, ast.Name):
+                out.add(n.id)
+            elif isinstance(n, ast.alias):
+                out.add(n.name)
+            elif isinstance(n, ast.Attribute):
+                out.add(n.attr)
+            elif isinstance(n, ast.Constant) and isinstance(n.value, str) and len(n.value) < 200:
+                out |= set(re.findall(r"[A-Za-z_][A-Za-z_0-9]*", n.value))
+    return out
 
 
 def _gen_one(root: str, schema: str, queries: str, cfg: Dict[str, Any]) -> Dict[str, Any]:
@@ -620,6 +875,8 @@ def full_case_impl(root: Path, case: Dict[str, Any], custom: bool, drive: bool) 
             c["inputs_enum_import"] = _imports_from(val["input_types.py"], "enums")
             c["client_inputs"] = _imports_from(val["client.py"], "input_types")
             c["client_enums"] = _imports_from(val["client.py"], "enums")
+            c["fragments_written"] = "fragments.py" in val
+            c["mentioned"] = sorted(_mentioned_names({k: v for k, v in val.items() if k not in ("enums.py", "__init__.py")}))
             if custom:
                 ci: Set[str] = set()
                 ce: Set[str] = set()
@@ -674,16 +931,20 @@ def full_case_impl(root: Path, case: Dict[str, Any], custom: bool, drive: bool) 
                 obs.setdefault("notes", []).append(f"{kind} classes reordered by pruning (not part of the property; the model comparison reports it)")
         # (2) retained set == closure (oracle's own worklist over graphql-core objects)
         if case.get("closure_check", True):
-            want_in, want_en = oracle_closure(case, ai, ae)
+            want_in, want_en, classless_only = oracle_closure(case, ai, ae)
             got_in, got_en = {n for n, _ in c["inputs"]}, {n for n, _ in c["enums"]}
+            # an enum that only a class-less, unreached fragment selects is needed iff a module of this package mentions it
+            want_en |= classless_only & set(c.get("mentioned", []))
+            if classless_only - got_en:
+                obs.setdefault("notes", []).append("enum selected only by a class-less fragment no operation reaches: pruned, mentioned by no module")
             if want_in - got_in:
                 fail("needed-input-pruned", f"missing {sorted(want_in - got_in)}")
             if got_in - want_in:
                 fail("extra-input-kept", f"extra {sorted(got_in - want_in)}")
             if want_en - got_en:
                 fail("needed-enum-pruned", f"missing {sorted(want_en - got_en)}")
-            if got_en - want_en:
-                fail("extra-enum-kept", f"extra {sorted(got_en - want_en)}")
+            if got_en - want_en - classless_only:
+                fail("extra-enum-kept", f"extra {sorted(got_en - want_en - classless_only)}")
         # (3)+(4) import and behaviour, relative to the unpruned package
         if drive and base["drive"]["import"] == "ok":
             d = c["drive"]
@@ -697,6 +958,7 @@ def full_case_impl(root: Path, case: Dict[str, Any], custom: bool, drive: bool) 
                     fail("pruned-behaves-differently", f"{mine_call['op']}: {mine_call['outcome']} {mine_call.get('detail', '')} vs {base_call['outcome']}")
     # keep the payload small: names only
     for c in obs["combos"].values():
+        c.pop("mentioned", None)
         if "inputs" in c:
             c["inputs"] = [n for n, _ in c["inputs"]]
             c["enums"] = [n for n, _ in c["enums"]]
@@ -733,10 +995,118 @@ def unit_batch(cases: List[Dict[str, Any]]) -> List[Dict[str, Any]]:
                 e = EnumsGenerator(schema=schema)
                 module = e.generate(types_to_include=incl)
                 o["enumsFilter"].append([c.name for c in module.body if isinstance(c, ast.ClassDef)])
+            o["args"] = []
+            for v1, v2 in case.get("var_lists", []):
+                o["args"].append(_observe_arguments(schema, v1, v2))
         except (AttributeError, ImportError, TypeError) as ex:
             o = {"observer": f"{type(ex).__name__}: {ex}"}
         out.append(o)
     return out
+
+
+def _observe_arguments(schema: Any, v1: List[str], v2: List[str]) -> List[Any]:
+    """ONE ArgumentsGenerator (as in the package generator), `generate` called twice: what the shared lists hold
+    after each call, or the error that escaped."""
+    from graphql import parse
+
+    from ariadne_codegen.client_generators.arguments import ArgumentsGenerator
+
+    g = ArgumentsGenerator(schema=schema)
+    out: List[Any] = []
+    for vs in (v1, v2):
+        head = "(" + ", ".join(f"$v{_letters(k)}: {t}" for k, t in enumerate(vs)) + ")" if vs else ""
+        vdefs = parse(f"query q{head} {{ __typename }}").definitions[0].variable_definitions
+        try:
+            g.generate(vdefs)
+            out.append({"usedInputs": list(g.get_used_inputs()), "usedEnums": list(g.get_used_enums())})
+        except Exception as e:  # noqa: BLE001
+            if type(e).__name__ in ("AttributeError", "ImportError", "TypeError"):
+                raise
+            out.append({"error": type(e).__name__, "detail": str(e)})
+            break
+    return out
+
+
+def _enc_type_str(t: str) -> Any:
+    from graphql import parse_type
+
+    return _enc_type_node(parse_type(t))
+
+
+def component_batch(cases: List[Dict[str, Any]]) -> List[Dict[str, Any]]:
+    """The REAL component generators the document model is parametric in: per operation
+    `ResultTypesGenerator.get_used_enums()` / `get_unpacked_fragments()`, per fragment definition the used enums of
+    its own generator, and `FragmentsGenerator.generate(exclude_names)` + `get_used_enums()` of the whole module."""
+    from graphql import FragmentDefinitionNode, OperationDefinitionNode, parse
+
+    out = []
+    for case in cases:
+        try:
+            from ariadne_codegen.client_generators.fragments import FragmentsGenerator
+            from ariadne_codegen.client_generators.result_types import ResultTypesGenerator
+
+            schema = build_schema_like_the_generator(case["schema"])
+            doc = parse(case["queries"]) if case["queries"].strip() else None
+            defs = list(doc.definitions) if doc else []
+            fragments = {d.name.value: d for d in defs if isinstance(d, FragmentDefinitionNode)}
+            o: Dict[str, Any] = {"ops": [], "frags": [], "module": None}
+            unpacked: Set[str] = set()
+            for d in defs:
+                if isinstance(d, OperationDefinitionNode):
+                    g = ResultTypesGenerator(schema=schema, operation_definition=d, enums_module_name="enums",
+                                             fragments_module_name="fragments", fragments_definitions=fragments)
+                    o["ops"].append({"re": list(g.get_used_enums()), "unpacked": sorted(g.get_unpacked_fragments())})
+                    unpacked |= set(g.get_unpacked_fragments())
+            for n, f in fragments.items():
+                g = ResultTypesGenerator(schema=schema, operation_definition=f, enums_module_name="enums", fragments_definitions=fragments)
+                o["frags"].append({"name": n, "enums": list(g.get_used_enums())})
+            fg = FragmentsGenerator(schema=schema, fragments_definitions=fragments)
+            fg.generate(exclude_names=unpacked)
+            o["module"] = list(fg.get_used_enums())
+        except (AttributeError, ImportError, TypeError) as ex:
+            o = {"observer": f"{type(ex).__name__}: {ex}"}
+        except Exception as ex:  # noqa: BLE001  (a generator refusing the document: the package run reports it)
+            o = {"refused": f"{type(ex).__name__}: {str(ex)[:200]}"}
+        out.append(o)
+    return out
+
+
+def component_correspondence(ctx: Ctx, st: Optional[LeanStatus], res: Result, cases: List[Dict[str, Any]], label: str) -> None:
+    """Tie of the PARAMETERS of the document model: the specification `component_spec` (this file) against the real
+    component generators, and the model's `_generate_fragments` fed with the real components against the real module."""
+    _quiet_fork_warning()
+    batches = [cases[i:i + 25] for i in range(0, len(cases), 25)]
+    results = engine.pmap_forked(component_batch, [(b,) for b in batches], timeout=300)
+    lines: List[Dict[str, Any]] = []
+    expect: List[Tuple[Any, Any]] = []
+    for b, (status, val) in zip(batches, results):
+        if status != "ok":
+            raise common.Infra(f"component batch failed: {status} {val}")
+        for case, o in zip(b, val):
+            inp = {"schema": case["schema"], "queries": case["queries"]}
+            if "observer" in o:
+                res.mismatches.append(Mismatch("component-observer", inp, "observer: " + o["observer"], None))
+                continue
+            if "refused" in o:
+                res.count(f"{label}:component-refused")
+                continue
+            schema = build_schema_like_the_generator(case["schema"])
+            ops, frags = abstract_document_doc(schema, case["queries"])
+            spec = {"ops": [{"re": sorted(set(x["re"])), "unpacked": sorted(x["unpacked"])} for x in ops],
+                    "frags": [{"name": f["name"], "enums": sorted(set(f["enums"]))} for f in frags]}
+            impl = {"ops": [{"re": sorted(set(x["re"])), "unpacked": sorted(x["unpacked"])} for x in o["ops"]],
+                    "frags": [{"name": f["name"], "enums": sorted(set(f["enums"]))} for f in o["frags"]]}
+            res.seen(["component", case["schema"], case["queries"]], nontrivial=any(x["unpacked"] for x in impl["ops"]) or any(f["enums"] for f in impl["frags"]))
+            if impl != spec:
+                res.mismatches.append(Mismatch("component", inp, impl, spec))
+            unpacked = sorted({n for x in o["ops"] for n in x["unpacked"]})
+            lines.append({"op": "fragments", "frags": o["frags"], "unpacked": unpacked})
+            expect.append((inp, sorted(set(o["module"]))))
+    if st is not None and st.driver_ok and lines:
+        outs = common.run_driver(PROP, lines)
+        for (inp, impl), model in zip(expect, outs):
+            if sorted(set(model or [])) != impl:
+                res.mismatches.append(Mismatch("fragments-module-enums", inp, impl, model))
 
 
 # --------------------------------------------------------------------------------------------
@@ -795,8 +1165,14 @@ def unit_correspondence(ctx: Ctx, st: Optional[LeanStatus], res: Result) -> None
             root_lists.append([rng.choice(names) for _ in range(rng.randint(1, 3))] if names else [])
         pool = enum_names + names + ["Nope"]
         enum_lists: List[Optional[List[str]]] = [None, [], [rng.choice(pool) for _ in range(rng.randint(1, 5))]]
+        type_pool = names + enum_names + list(s["objects"]) + list(s["interfaces"]) + list(s["unions"]) + list(BUILTIN_SCALARS) \
+            + (["Date"] if s["custom_scalar"] else []) + ["NotAType"]
+        weights = [6] * len(names) + [6] * len(enum_names) + [1] * (len(type_pool) - len(names) - len(enum_names) - 1) + [1]
+        var_lists = []
+        for _ in range(2):
+            var_lists.append([[rng.choice(WRAPS).format(rng.choices(type_pool, weights)[0]) for _ in range(rng.randint(0, 4))] for _ in range(2)])
         cases.append({"schema": sdl, "dep_roots": names + ["NotAType"], "root_lists": root_lists, "enum_lists": enum_lists,
-                      "shape": s["shape"]})
+                      "var_lists": var_lists, "shape": s["shape"]})
     batches = [cases[i:i + 40] for i in range(0, len(cases), 40)]
     _quiet_fork_warning()
     results = engine.pmap_forked(unit_batch, [(b,) for b in batches], timeout=300)
@@ -830,6 +1206,14 @@ def unit_correspondence(ctx: Ctx, st: Optional[LeanStatus], res: Result) -> None
                 lines.append({"op": "enumsFilter", "enums": en, "incl": incl})
                 expect.append(("enumsFilter", {"schema": case["schema"], "incl": incl}, got))
                 res.seen(["enumsFilter", case["schema"], incl], nontrivial=bool(incl) and 0 < len(got) < len(en))
+            kinds = schema_kinds(schema)
+            for (v1, v2), got in zip(case["var_lists"], o["args"]):
+                # the shared generator appends: after the second call the lists hold what one call on v1 ++ v2 records
+                for vs, g in zip((v1, v1 + v2), got):
+                    lines.append({"op": "varsUse", "kinds": kinds, "vars": [_enc_type_str(t) for t in vs]})
+                    expect.append(("varsUse", {"schema": case["schema"], "vars": vs}, g))
+                    res.seen(["varsUse", case["schema"], vs], nontrivial=bool(g.get("usedInputs") or g.get("usedEnums")))
+                    res.count("unit:varsUse:" + ("error:" + g["detail"].split(" ")[0] if "error" in g else "ok"))
     if st is not None and st.driver_ok:
         outs = common.run_driver(PROP, lines)
         for (label, inp, impl), model in zip(expect, outs):
@@ -867,15 +1251,29 @@ def judge_full(ctx: Ctx, st: Optional[LeanStatus], res: Result, cases: List[Dict
                 nontrivial = True
                 res.count(f"{label}:combos-that-pruned-something")
             if case.get("model_check", True):
-                line = model_input(case, ai, ae, custom)
-                lines.append(line)
+                doc = doc_input(case, ai, ae, custom)
+                line = twin_to_input(doc)
                 impl = {"inputs": c["inputs"], "enums": c["enums"], "inputsEnumImport": c["inputs_enum_import"],
                         "clientInputs": c["client_inputs"], "clientEnums": c["client_enums"]}
-                expect.append(("generate", {"schema": case["schema"], "queries": case["queries"], "flags": [ai, ae], "custom": custom}, impl))
+                inp = {"schema": case["schema"], "queries": case["queries"], "flags": [ai, ae], "custom": custom}
+                # the document model (Model/PruneDoc.lean: add_operation loop, arguments generator, _generate_fragments) ...
+                lines.append(doc)
+                expect.append(("generateDoc", inp, dict(impl, fragmentsWritten=c["fragments_written"])))
+                # ... and Model/Prune.lean on the closed-form abstraction computed by the Python twin of `toInput`
+                lines.append(line)
+                expect.append(("generate", inp, impl))
+                if any(op["unpacked"] for op in doc["ops"]):
+                    res.count(f"{label}:combos-with-unpacked-fragments")
+                if doc["frags"] and not c["fragments_written"]:
+                    res.count(f"{label}:combos-fragments-module-not-written")
+                if any(not isinstance(t, str) for op in doc["ops"] for t in op["vars"]):
+                    res.count(f"{label}:combos-with-wrapped-variable-types")
                 if custom:
                     tl = dict(line, op="trigger")
                     lines.append(tl)
                     expect.append(("trigger", {"schema": case["schema"], "queries": case["queries"], "flags": [ai, ae]}, py_trigger(line)))
+                    lines.append(dict(doc, op="triggerDoc"))
+                    expect.append(("triggerDoc", {"schema": case["schema"], "queries": case["queries"], "flags": [ai, ae]}, py_trigger(line)))
                     if (ai, ae) == (True, True) and (c.get("custom_inputs") != line["customInputs"] or c.get("custom_enums") != line["customEnums"]):
                         res.mismatches.append(Mismatch("custom-imports-abstraction", {"schema": case["schema"]},
                                                        [c.get("custom_inputs"), c.get("custom_enums")], [line["customInputs"], line["customEnums"]],
@@ -883,6 +1281,8 @@ def judge_full(ctx: Ctx, st: Optional[LeanStatus], res: Result, cases: List[Dict
             for op, outcome in c.get("calls", []):
                 res.count(f"{label}:call:" + outcome)
         res.seen([label, case["schema"], case["queries"]], nontrivial=nontrivial)
+        for note in sorted(set(obs.get("notes", []))):
+            res.count(f"{label}:note:" + note[:90])
         for f in obs["failures"]:
             trig = None
             if custom and f["sig"] == "custom-ops-import-error":
@@ -901,10 +1301,11 @@ def judge_full(ctx: Ctx, st: Optional[LeanStatus], res: Result, cases: List[Dict
     if st is not None and st.driver_ok and lines:
         outs = common.run_driver(PROP, lines)
         for (lab, inp, impl), model in zip(expect, outs):
-            if lab == "generate":
+            if lab in ("generate", "generateDoc"):
                 ok = (isinstance(model, dict) and "error" not in model and impl["inputs"] == model["inputs"] and impl["enums"] == model["enums"]
                       and set(impl["inputsEnumImport"]) == set(model["inputsEnumImport"])
-                      and set(impl["clientInputs"]) == set(model["clientInputs"]) and set(impl["clientEnums"]) == set(model["clientEnums"]))
+                      and set(impl["clientInputs"]) == set(model["clientInputs"]) and set(impl["clientEnums"]) == set(model["clientEnums"])
+                      and (lab == "generate" or impl["fragmentsWritten"] == model.get("fragmentsWritten")))
             else:
                 ok = impl == model
             if not ok:
@@ -914,6 +1315,38 @@ def judge_full(ctx: Ctx, st: Optional[LeanStatus], res: Result, cases: List[Dict
                 res.sample({"observation": "generate", "flags": inp["flags"], "queries": inp["queries"][:300], "impl": impl, "model": model}, limit=8)
                 break
     return all_obs
+
+
+def directed_cases(rng: random.Random, n: int) -> List[Dict[str, Any]]:
+    """Small documents aimed at the places where the bookkeeping has an order or a flag to get wrong: an enum that is
+    ONLY the (wrapped) variable type of the first / a middle / the last operation, an enum only below a fragment that
+    an operation unpacks, only in a fragment that is inherited, only in an input field (retained or not), an enum
+    nothing uses; an input reached only through a list variable.  Every case is judged for all four flag combinations."""
+    out = []
+    for _ in range(n):
+        n_ops = rng.randint(1, 4)
+        var_op = rng.randrange(n_ops)
+        wrap = rng.choice(WRAPS)
+        unpack = rng.random() < 0.6
+        ops = []
+        for i in range(n_ops):
+            name = "op" + _letters(i)
+            if i == var_op:
+                ops.append(f"query {name}($m: {wrap.format('OnlyVar')}, $w: [[Wh!]]) {{ items(mode: $m, where: $w) {{ id }} }}")
+            elif i % 3 == 0:
+                ops.append(f"query {name} {{ pet {{ ...PetF }} }}" if unpack else f"query {name} {{ item {{ ...ItemF }} }}")
+            elif i % 3 == 1:
+                ops.append(f"query {name}($id: ID!) {{ byId(id: $id) {{ id res }} }}")
+            else:
+                ops.append(f"query {name} {{ item {{ ...ItemF }} }}")
+        schema = ("enum OnlyVar { A B }\nenum OnlyRes { C }\nenum OnlyMixin { D }\nenum OnlyUnpacked { E }\nenum OnlyInput { F }\n"
+                  "enum OnlyUnusedInput { G }\nenum Orphan { H }\n"
+                  "input Wh { e: OnlyInput = F  and: [Wh!] }\ninput Unused { e: OnlyUnusedInput }\n"
+                  f"type Item {{ id: ID!  res: OnlyRes  mix: OnlyMixin  unp: OnlyUnpacked }}\ntype Other {{ id: ID! }}\nunion Pet = Item | Other\n"
+                  f"type Query {{ items(mode: {wrap.format('OnlyVar')}, where: [[Wh!]]): [Item!]!  byId(id: ID!): Item  item: Item  pet: Pet  unused(u: Unused): Int }}\n")
+        frs = "fragment ItemF on Item { mix }\nfragment PetF on Pet { __typename ... on Item { unp } }\n"
+        out.append({"schema": schema, "queries": "\n".join(ops) + "\n" + frs, "shape": "directed"})
+    return out
 
 
 def corpus_cases() -> List[Tuple[str, Dict[str, Any]]]:
@@ -951,11 +1384,15 @@ def replay_corpus(ctx: Ctx, st: Optional[LeanStatus], res: Result) -> None:
 
 def run(ctx: Ctx, st: Optional[LeanStatus]) -> Result:
     res = Result()
-    res.rule = ("unit: seeded random schemas (shapes random/chain/cycle/diamond/self/sparse/dense) x every input type as DFS root, 5 root "
-                "lists, 3 enum include-lists, real generators vs Lean driver (ordered lists); package: seeded (schema, operations) x 4 flag "
-                "combinations through main.client, ordered class lists + import sets vs driver, and the pruned-vs-unpruned oracle incl. "
-                "MockTransport calls; a case is non-trivial when a DFS has successors / a filter keeps a proper non-empty subset / "
-                "a flag combination actually pruned a class")
+    res.rule = ("unit: seeded random schemas (shapes random/chain/cycle/diamond/self/sparse/dense, interfaces and unions) x every input type "
+                "as DFS root, 5 root lists, 3 enum include-lists, 2x2 variable-definition lists (every wrapper shape over input / enum / scalar / "
+                "object / unknown type names; ONE ArgumentsGenerator called twice), real generators vs Lean driver; component: the real "
+                "ResultTypesGenerator per operation / fragment and the real FragmentsGenerator vs the specification the document model is fed "
+                "with; package: seeded (schema, operations incl. abstract positions with inline fragments, fragments unpacked / inherited / never "
+                "spread) + directed documents x 4 flag combinations through main.client, ordered class lists + import sets + 'fragments.py written' "
+                "vs the driver's generateDoc (document model) AND generate (closed form), and the pruned-vs-unpruned oracle incl. MockTransport "
+                "calls; a case is non-trivial when a DFS has successors / a filter keeps a proper non-empty subset / a variable list records a "
+                "type / an operation unpacks a fragment or a fragment uses an enum / a flag combination actually pruned a class")
     res.extra["fingerprints"] = common.fingerprints(ctx, FINGERPRINTS)
     if True:
         replay_corpus(ctx, st, res)
@@ -964,11 +1401,25 @@ def run(ctx: Ctx, st: Optional[LeanStatus]) -> Result:
         ctx.log(f"unit correspondence done: evaluations={res.evaluations} mismatches={len(res.mismatches)}")
         rng = ctx.sub_rng("full")
         cases = [gen_case(rng) for _ in range(ctx.budget(70, 700))]
-        judge_full(ctx, st, res, cases, custom=False, drive=True, label="full")
+        rngk = ctx.sub_rng("component")
+        component_correspondence(ctx, st, res, cases + [gen_case(rngk) for _ in range(ctx.budget(250, 2500))]
+                                 + [{"schema": p["schema"], "queries": p.get("queries", "")} for _, p in corpus_cases() if p.get("model_check", True)],
+                                 "component")
+        ctx.log(f"component correspondence done: mismatches={len(res.mismatches)}")
+        todo = directed_cases(ctx.sub_rng("directed"), ctx.budget(6, 40)) + cases
+        found = any(f.trigger is None for f in res.failures)
+        for i in range(0, len(todo), 80):
+            if found:
+                # the verdict is settled by a concrete failing input on the real code; the rest of the sweep would only add more of them
+                ctx.log(f"concrete failing input found: {len(todo) - i} of {len(todo)} package cases not run")
+                break
+            judge_full(ctx, st, res, todo[i:i + 80], custom=False, drive=True, label="full")
+            found = any(f.trigger is None for f in res.failures)
         ctx.log(f"package correspondence + oracle done: failures={len(res.failures)} mismatches={len(res.mismatches)}")
-        rngc = ctx.sub_rng("custom")
-        ccases = [gen_case(rngc) for _ in range(ctx.budget(12, 120))]
-        judge_full(ctx, st, res, ccases, custom=True, drive=True, label="custom-ops")
+        if not found:
+            rngc = ctx.sub_rng("custom")
+            ccases = [gen_case(rngc) for _ in range(ctx.budget(12, 120))]
+            judge_full(ctx, st, res, ccases, custom=True, drive=True, label="custom-ops")
     _RUN_STATE["unknown_failures"] = sum(1 for f in res.failures if f.trigger is None)
     res.oracle_only += [
         "the emitted text passes through ast_to_str (autoflake, isort, black) and CPython's import + pydantic model_rebuild: observed on the generated packages, represented in Lean only by WellScoped",
@@ -976,8 +1427,10 @@ def run(ctx: Ctx, st: Optional[LeanStatus]) -> Result:
         "textual identity of retained classes: in Lean class bodies are opaque values and filtering is List.filter; that the emitted text of a class does not depend on the flags is observed (ast.unparse per class)",
     ]
     res.assumptions += [
-        "abstraction schema -> dependency graph and operations -> roots / used enums (harness/c09.py, from graphql-core objects) is trusted; generated operations use object types and fragments that are never unpacked, where enums(results) U enums(fragments) is the TypeInfo walk",
-        "Python's recursion limit (a chain of ~1000 input types would raise RecursionError in the recursive dfs) is not modelled",
+        "abstraction schema -> dependency graph / kind table and variable definitions -> type-node trees (harness/c09.py, from graphql-core objects) is trusted; the roots and the variable enums are computed by the Lean model from the type nodes",
+        "the per-operation / per-fragment outputs of ResultTypesGenerator (used enums, unpacked fragments) are PARAMETERS of the document model: fed from the specification component_spec (own typed walk), which every run compares with the real ResultTypesGenerator on all generated documents; the walk itself is modelled by Model/ResultTypes.lean (C01/C08), not here",
+        "reading: 'enums reachable from fragments' = enums selected by a fragment definition the package has a class for; an enum selected ONLY by a fragment without a class (type condition a union / top-level inline fragment) that no operation reaches is required only if some module of the generated package (other than enums.py / __init__.py) mentions it (checked on the generated files; counted under note:)",
+        "Python's recursion limit is not modelled: the recursive dfs raises RecursionError on a dependency PATH of ~970 input types; measured on the pinned tree, a package with a chain of 150 input types already cannot be imported with or without pruning (pydantic's schema generation recurses along the same path), so the hypothesis of C09 (the unpruned package loads) fails long before the dfs does",
         "plugins are not modelled (a plugin may rename classes after the dependency tables are built)",
     ]
     return res
@@ -994,7 +1447,7 @@ def search(ctx: Ctx) -> Result:
         ctx.log("search skipped: the run already found a concrete failing input")
         return res
     rng = ctx.sub_rng("search")
-    cases = [gen_case(rng) for _ in range(400)]
+    cases = directed_cases(rng, 40) + [gen_case(rng) for _ in range(400)]
     judge_full(ctx, None, res, cases, custom=False, drive=True, label="search")
     return res
 
